@@ -37,11 +37,12 @@ func (o Obligation) Key() string { return o.Rule + "|" + o.Func + "|" + o.Constr
 
 // Rule is an instance of a template of DESIGN §3 applied to one clause of a property.
 type Rule struct {
-	ID       string // e.g. "C13.c"
-	Template string // e.g. "T-TYPESTATE"
-	Doc      string // what is decided and why its breaking breaks the property
-	Required bool   // zero anchors is a failure (the property needs the mechanism)
-	Run      func(c *Ctx)
+	ID         string // e.g. "C13.c"
+	Template   string // e.g. "T-TYPESTATE"
+	Doc        string // what is decided and why its breaking breaks the property
+	Required   bool   // zero anchors is a failure (the property needs the mechanism)
+	SourceOnly bool   // the rule judges the source as written (names); normal forms say nothing about it
+	Run        func(c *Ctx)
 }
 
 type Property struct {
